@@ -48,7 +48,8 @@ def run():
     for (p, m), row in zip(pairs, anyrows):
         if row.get("ok") and "smt" in row:
             label = "any(%s;%s)" % (",".join(p), m)
-            member_asts[label] = [asts[x] for x in p]
+            # in a combinator every pattern is a branch of one alternation
+            member_asts[label] = [([("alt", [asts[x]])] if asts[x] else asts[x]) for x in p]
             targets.append((label, {"any": p, "mode": m}, row))
     tasks = []
     kinds = {}
@@ -72,11 +73,13 @@ def run():
         roles = {"depth-outside-reported-bounds"}
         if n < lo:
             roles.add("fewer-components-than-lower-bound")
-            if any(R.has_nullable_component(a) for a in member_asts[targets[i][0]]):
+            if any(R.has_nullable_component(a[0][1][0] if (a and len(a) == 1 and a[0][0] == "alt" and len(a[0][1]) == 1 and targets[i][0].startswith("any(")) else a)
+                   for a in member_asts[targets[i][0]]):
                 roles.add("open-component-matched-by-nothing")
         else:
             roles.add("more-components-than-upper-bound")
-        if any(R.tree_at_branch_edge(a) for a in member_asts[targets[i][0]]):
+        import ref as _ref
+        if any(_ref.superposition_mismatch(a) for a in member_asts[targets[i][0]] if a):
             roles.add("tree-at-branch-edge")
         rep.candidate(roles, {"short": {"program": targets[i][0], "depth": targets[i][2]["depth"],
                                         "matches": w, "components": n}})
